@@ -19,6 +19,8 @@ func KeyToSlot(key string) uint16 {
 					break
 				}
 			}
+			// only the first '{' starts the hash tag (Redis keyHashSlot)
+			break
 		}
 	}
 	if len(hashtag) > 0 {
